@@ -145,8 +145,13 @@ def run_case(case):
     z0 = float(zm * 10 ** rng.uniform(-2.0, -0.7))
     for _ in range(30):
         fam = gen.Family.draw(rng, zm, z0)
-        if fam.height_dependent and fam.d["wind"] != "const":
-            break
+        if fam.height_dependent and (fam.d["wind"] != "const" or (fam.d["K"] != "const" and case["idx"] % 5 == 1)):
+            break  # (a uniform wind over a height-dependent diffusivity in a fifth of the cases)
+    if case["idx"] % 12 == 7 and not case.get("closure"):
+        # wind and along-x diffusivity exactly uniform with height, the other two diffusivities height-dependent
+        fam.d.update(wind="const", veer=0.0, kx_const=True, ex=0.0, ey=float(rng.uniform(-0.3, 0.3)))
+        if fam.d["K"] == "const":
+            fam.d["K"] = "linear"
     gridk = str(rng.choice(["uniform", "geometric", "expmap"]))
     n0 = int(rng.choice([8, 16, 32]))
     if case.get("closure"):
